@@ -30,19 +30,29 @@ def mean_output(preds):
 
 
 def scenario_builder(seed, cfg, m):
-    """returns (run(draws) -> contributions dict by feature index, info)"""
+    """returns run(draws) -> (rig, rows currently stored, x, y, returned values).  With a bounded storage the scenario is
+    multi-step: the storage fills, one observation is explained (the imputer samples from the full storage), further
+    observations replace stored rows, and only THEN the measured call happens — its background must be the CURRENT contents."""
     def run(draws):
         rig = explain.Rig(pyrandom.Random(seed), **cfg)
         rows = [rig.gen_x() for _ in range(m)]
+        later = [rig.gen_x() for _ in range(m)]
+        x0, y0 = rig.gen_x(), rig.gen_y()
         x, y = rig.gen_x(), rig.gen_y()
         with warnings.catch_warnings():
             warnings.simplefilter("ignore")
-            rig.ex.explain_one(rows[0], Q(0))          # first call only seeds the storage
-            for r in rows[1:]:
-                rig.ex.update_storage(r, Q(0))
-            pos0 = draws.pos if hasattr(draws, "pos") else 0
+            pre = hrng.Scripted(pyrandom.Random(seed + 1), real_fn=lambda r: 0.0)   # draws of the preparation phase are fixed
+            with pre.installed():
+                rig.ex.explain_one(rows[0], Q(0))          # first call only seeds the storage
+                for r in rows[1:]:
+                    rig.ex.update_storage(r, Q(0))
+                if cfg["storage_kind"] != "batch":
+                    rig.ex.explain_one(x0, y0, update_storage=False)
+                    for r in later:
+                        rig.ex.update_storage(r, Q(0))
             ret = rig.ex.explain_one(x, y, update_storage=False)
-        return rig, rows, x, y, ret
+        now = [dict(r) for r in rig.ex._storage.get_data()[0]]
+        return rig, now, x, y, ret
     return run
 
 
@@ -139,8 +149,9 @@ def run(tier="quick", seed=0, replay=None):
     chk.rng.shuffle(cases)
     cases = cases[: (26 if quick else 200)]
     for kind, d, m, n, ik in cases:
+        sk = chk.rng.choice(["batch", "interval", "geom1"])
         cfg = dict(kind=kind, d=d, dynamic=True, alpha=Q(1), n_inner=n, model_kind=chk.rng.choice(["scalar", "multi"]),
-                   names_kind=chk.rng.choice(["str", "mixed"]), storage_kind="batch", storage_size=1, imputer_kind=ik,
+                   names_kind=chk.rng.choice(["str", "mixed"]), storage_kind=sk, storage_size=m, imputer_kind=ik,
                    loss_kind="arbitrary", lbb=False)
         sd = chk.rng.randrange(10 ** 9)
         scen = scenario_builder(sd, cfg, m)
@@ -150,13 +161,14 @@ def run(tier="quick", seed=0, replay=None):
         ranges_seen = set()
         nout = 0
         bad = None
+        chk.stat(f"storage:{sk}")
         for wgt, (rig, rows, x, y, ret), choices in hrng.enumerate_outcomes(lambda dr: scen(dr)):
             nout += 1
             total_w += wgt
             for f, val in rig.fdict(ret):
                 acc[f] = acc.get(f, Fraction(0)) + wgt * Fraction(val)
             if expect is None:
-                expect = brute_force(rig, rows, x, y, cfg, m)
+                expect = brute_force(rig, rows, x, y, cfg, len(rows))
                 last = rig
         desc = {"config": _expl.cfg_desc(cfg), "seed": sd, "stored_rows": m, "outcomes": nout,
                 "expected_update": {str(k): rs(v) for k, v in (expect or {}).items()}}
